@@ -211,6 +211,40 @@ def densify(lines):
     return out
 
 
+def probe(lines):
+    """Property-directed search (on top of `densify`): after every effective point of the history
+    (every sweep, and at the end) re-allocate every string allocated so far under a fresh name, read
+    it, compare it with every earlier handle of the same string (and one of a different string), and
+    build a module reference from it — the observations the property speaks about (injectivity,
+    read-back, re-allocation, module-reference parts), which a random history only makes by chance.
+    The oracle judges the implementation's answers only, so any failing probe history is a genuine
+    counterexample."""
+    out, strs, byname, z = [], [], {}, [0]
+
+    def probes():
+        ps = []
+        for sx in strs:
+            v = f"z{z[0]}"; z[0] += 1
+            ps += [f"as {v} {sx}", f"rd {v}"]
+            same = [w for w, s2 in byname.items() if s2 == sx]
+            other = [w for w, s2 in byname.items() if s2 != sx][:1]
+            for w in same + other:
+                ps += [f"rd {w}", f"rd {v}", f"cmp {v} {w}"]
+            ps += [f"rd {v}", f"am {v}", f"rd {v}"]
+            byname[v] = sx
+        return ps
+    for l in densify(lines):
+        t = l.split(" ")
+        out.append(l)
+        if t[0] in ("as", "st") and len(t) == 3:
+            byname[t[1]] = t[2]
+            if t[2] not in strs:
+                strs.append(t[2])
+        if t[0] == "sw":
+            out += probes()
+    return out + probes()
+
+
 def check_lines(ctx, lines, label):
     """Run lines through impl + model + oracle; record violations. Returns True if clean."""
     impl, model = common.run_pair("C17", lines, resolve)
@@ -233,8 +267,14 @@ def check_lines(ctx, lines, label):
                 c = densify(["reset"] + [x for x in cand if x != "reset"])
                 i2, _ = common.run_pair("C17", c, resolve)
                 return bool(oracle(c, i2))
+            def fails_probe(cand):
+                c = probe(["reset"] + [x for x in cand if x != "reset"])
+                i2, _ = common.run_pair("C17", c, resolve)
+                return bool(oracle(c, i2))
             if fails_oracle(h):      # search: does the implementation break the property itself?
                 small = densify(["reset"] + [x for x in common.ddmin(h, fails_oracle) if x != "reset"])
+            elif fails_probe(h):     # search 2: property-directed probes (re-allocation, comparison, module refs)
+                small = probe(["reset"] + [x for x in common.ddmin(h, fails_probe) if x != "reset"])
             else:
                 small = ["reset"] + [x for x in common.ddmin(h, fails) if x != "reset"]
             i2, m2 = common.run_pair("C17", small, resolve)
